@@ -189,6 +189,8 @@ def _req_kwargs(req):
         kw["pressure_mode"], kw["pressure_unit"] = req["prep"]
     if req.get("lrep"):
         kw["loading_basis"], kw["loading_unit"] = req["lrep"]
+    if req.get("mrep"):
+        kw["loading_material_basis"], kw["loading_material_unit"] = req["mrep"]
     return kw
 
 
@@ -219,7 +221,7 @@ def run_op(world, op):
     if name == "pressure":
         return iso.pressure(branch=op["branch"], limits=op.get("limits"), **{k: v for k, v in _req_kwargs(op["req"]).items() if k.startswith("pressure")})
     if name == "loading":
-        return iso.loading(branch=op["branch"], limits=op.get("limits"), **{k: v for k, v in _req_kwargs(op["req"]).items() if k.startswith("loading")})
+        return iso.loading(branch=op["branch"], limits=op.get("limits"), **{k.replace("loading_material", "material"): v for k, v in _req_kwargs(op["req"]).items() if k.startswith("loading")})
     if name == "other_data":
         return iso.other_data("enthalpy", branch=op["branch"])
     if name == "loading_at":
@@ -230,7 +232,8 @@ def run_op(world, op):
         return iso.spreading_pressure_at(_query(iso, op), branch=op["branch"], interp_fill=fill)
     if name == "loading_at_units":
         q = _query(iso, dict(op, op="loading_at"))
-        return iso.loading_at(q, branch=op["branch"], **{k: v for k, v in _req_kwargs(op["req"]).items() if k.startswith("loading")})
+        return iso.loading_at(q, branch=op["branch"], **{k.replace("loading_material", "material"): v
+                                                         for k, v in _req_kwargs(op["req"]).items() if k.startswith("loading")})
     if name == "to_json":
         return iso.to_json()
     if name == "to_csv":
@@ -366,7 +369,8 @@ def _op(focus=None):
     iso = st.sampled_from(["A", "A", "B"])
     br = st.sampled_from(_BR)
     q = st.floats(0, 1)
-    req = st.builds(lambda p, l: {"prep": p, "lrep": l}, st.one_of(st.none(), S.p_rep()), st.one_of(st.none(), S.l_rep(False)))
+    req = st.builds(lambda p, l, m: {"prep": p, "lrep": l, "mrep": m}, st.one_of(st.none(), S.p_rep()),
+                    st.one_of(st.none(), S.l_rep(False)), st.one_of(st.none(), st.none(), S.m_rep()))
     at = lambda name: st.builds(  # noqa
         lambda i, b, k, f, w, qq: {"op": name, "iso": i, "branch": b, "kind": k, "fill": f, "where": w, "q": qq},
         iso, br, st.sampled_from(_KINDS), st.sampled_from(_FILLS), st.sampled_from(["inside", "inside", "below", "above"]), q)
